@@ -283,7 +283,8 @@ def rand_trajectory(rng, t0, n, cls=None, uncertain=False):
     return Trajectory(t0, states)
 
 
-def rand_obstacle(rng, oid, role=None, shape_kinds=("rect", "circ", "poly"), uncertain=False, t0=None):
+def rand_obstacle(rng, oid, role=None, shape_kinds=("rect", "circ", "poly"), uncertain=False, t0=None,
+                  interval_occ=False):
     role = role or rng.choice(["static", "dynamic", "dynamic", "dynamic_set", "dynamic_none", "env", "phantom"])
     t0 = rng.choice([0, 0, 2]) if t0 is None else t0
     shape = rand_shape(rng, shape_kinds)
@@ -298,6 +299,13 @@ def rand_obstacle(rng, oid, role=None, shape_kinds=("rect", "circ", "poly"), unc
     n = rng.randint(1, 5)
     if role in ("phantom", "dynamic_set"):
         occs = [Occupancy(t0 + 1 + i, rand_shape(rng, ("rect", "circ", "poly"), False)) for i in range(n)]
+        if interval_occ and rng.random() < 0.7:
+            # Occupancy.time_step may be an Interval (XML: <time><intervalStart/><intervalEnd/></time>): the last
+            # occupancy stands for the rest of the horizon, sometimes every occupancy carries a (degenerate) interval
+            if rng.random() < 0.3:
+                for o in occs[:-1]:
+                    o.time_step = Interval(o.time_step, o.time_step)
+            occs[-1].time_step = Interval(t0 + n, t0 + n + rng.choice([0, 1, 3]))
         pred = SetBasedPrediction(t0 + 1, occs)
         if role == "phantom":
             return PhantomObstacle(oid, pred)
